@@ -338,7 +338,9 @@ Ltac norm_to_nat :=
 (* whatever way the cap / the comparison is written: case split on the conditionals, then linear arithmetic with
    the euclidean-division equations (constant powers are evaluated by lia) *)
 Ltac bridge_arith :=
+  rewrite ?Z.shiftl_mul_pow2, ?Z.shiftr_div_pow2 by lia;
   repeat match goal with |- context [if ?c then _ else _] => destruct c eqn:? end;
+  rewrite ?Z.shiftl_mul_pow2, ?Z.shiftr_div_pow2 in * by lia;
   rewrite ?N2Z.inj_mod, ?N2Z.inj_div;
   zify; Z.to_euclidean_division_equations; lia.
 
